@@ -204,10 +204,11 @@ func (w *world) onExec(e *simredis.Exec) {
 		cl.id, cl.idKnown = id, true
 		for _, o := range w.cls {
 			if o != cl && o.idKnown && o.id == id {
-				// two instances with the same id are outside the statement (ids are tape-derived
-				// under simrand, a shrunk tape can make them equal): no verdict from this run
+				// ids are tape-derived under simrand (two 63-bit draws each): equal ids cannot
+				// come out of a generated tape; a tape shrunk to zeroes would make them equal, the
+				// class of its own keeps the shrinker from accepting such a candidate
+				w.fail("instance-ids-collide", "instances %d and %d use the same id: the lock cannot tell them apart", o.idx, cl.idx)
 				w.void = true
-				r.Probe("id-collision-run-voided")
 			}
 		}
 	} else if cl.id != id {
